@@ -208,6 +208,12 @@ theorem bridge_begin_apply_methods (t : Rel) (pref : Option Engine) :
    fun p => Bridge.Selection_begin_apply_eq p t pref, fun s e => Bridge.Slice_begin_apply_eq s e t pref,
    fun ts => Bridge.Sort_begin_apply_eq ts t pref⟩
 
+/-- Tie to the source: `PartialJoin._begin_apply` (the column check of `relation.join`), as translated from the current
+Python source on this run, is the model's `PJoin.beginApply`. -/
+theorem bridge_partial_join_begin_apply (fuel : Nat) (p : PJoin) (t : Rel) (pref : Option Engine) :
+    Gen.PartialJoin_begin_apply (fuel+2) p t pref = p.beginApply t pref :=
+  Bridge.PartialJoin_begin_apply_eq fuel p t pref
+
 /-- `Chain._begin_apply`, as translated from the current source, is the model's `chainBeginApply`. -/
 theorem bridge_chain_begin_apply (l r : Rel) : Gen.Chain_begin_apply l r = chainBeginApply l r :=
   Bridge.Chain_begin_apply_eq l r
